@@ -24,6 +24,7 @@ StepLayout(e) ==
   /\ Report(e.case, LinesFails(e), LinesDetail(e))
   /\ Report(e.case, CRLFFails(e), CRLFDetail(e))
   /\ \A i \in 1..Len(e.chains) : Report(e.case, ChainFails(e, i), ChainDetail(e, i))
+  /\ \A i \in 1..Len(e.small) : Report(e.case, SmallFails(e, i), SmallDetail(e, i))
   /\ LET ts == [align |-> e.align, base |-> e.base, lh |-> e.lh]
          pin == e.whole.ret = TextRetT(e.font, e.sty, ts, e.text, e.pos, "pinned")
                 /\ e.whole.bbox = BoundingBoxT(e.font, e.sty, ts, e.text, e.pos, "pinned")
@@ -33,7 +34,7 @@ StepLayout(e) ==
      IN /\ IF pin \/ fix THEN TRUE
            ELSE Drift(e.case, "text_ret_bbox", [text |-> e.text, align |-> e.align, ret |-> e.whole.ret, bbox |-> e.whole.bbox])
         /\ Stat([layouts |-> 1, rel_ret |-> x.ret, rel_align |-> x.align, rel_baseline_shift |-> x.baseline_shift,
-                 rel_multiline |-> x.multiline, rel_crlf |-> x.crlf, rel_chain |-> x.chain,
+                 rel_multiline |-> x.multiline, rel_crlf |-> x.crlf, rel_chain |-> x.chain, rel_bounded |-> x.bounded,
                  model_pinned_only |-> IF pin /\ ~fix THEN 1 ELSE 0, model_fixed_only |-> IF fix /\ ~pin THEN 1 ELSE 0])
 \* a library call of this case panicked: the property promises a result for every input of its domain
 StepPanic(e) == e.ev = "panic" /\ Report(e.case, {"library_call_panicked"}, [msg |-> e.msg, loc |-> e.loc])
